@@ -98,6 +98,10 @@ var replacements = []codec.Tree{
 	{"s", "/"}, {"s", "/+"}, {"s", "text/plain"}, {"s", "application/vnd.lime.container+json"},
 	{"s", "application/vnd.lime.collection+json"}, {"n", "9223372036854775808"},
 	{"n", "4611686018427387904"}, {"n", "1000000000000000000"}, {"n", "-9223372036854775808"}, {"n", "2147483648"},
+	// strings at the edges of the text grammars (media type, node, identity, URI): separators in the wrong
+	// order, repeated, leading, trailing
+	{"s", "a+b/c"}, {"s", "+/"}, {"s", "text+x/plain"}, {"s", "a/b+c+d"}, {"s", "a//b"}, {"s", "/b"}, {"s", "a/"},
+	{"s", "a/b/c"}, {"s", "a@b/c@d/e"}, {"s", "@"}, {"s", "a@"}, {"s", "%zz"}, {"s", "lime://x@y/z"},
 }
 
 const (
